@@ -36,7 +36,7 @@ INVS = ["TypeOK", "ThresholdOnlyDrops", "ComponentsAreSCCs", "WeightsFromOrigina
         "CountsPreserved", "NothingOnRemoved", "MappingBijectiveMonotone", "VariantsAgree",
         "ContainerPreserved"]
 PROPS = ["Frozen"]
-ALL_CONTAINERS = ["ndarray", "csr_matrix", "coo_matrix", "lil_matrix"]
+ALL_CONTAINERS = ["ndarray", "csr_matrix", "coo_matrix", "lil_matrix", "csr_array", "coo_array"]
 # the thorough tier has up to 13 JVMs alive at once: keep each of them small (core's default is
 # -Xmx8g; the last -Xmx wins).  TLC keeps its queue on disk, 2-3 GB are ample for <= 5 M states.
 GC = ("-XX:ParallelGCThreads=2", "-Xmx2g")
@@ -80,7 +80,7 @@ SCOPES = {
 def _classes():
     import scipy.sparse as sp
     return {"ndarray": np.ndarray, "csr_matrix": sp.csr_matrix, "coo_matrix": sp.coo_matrix,
-            "lil_matrix": sp.lil_matrix}
+            "lil_matrix": sp.lil_matrix, "csr_array": sp.csr_array, "coo_array": sp.coo_array}
 
 
 def _dense(x):
